@@ -3,6 +3,7 @@ from __future__ import annotations
 
 import z3
 
+from . import seqs as Q
 from .core import (CLASSES, CONSTS, NONE, SeqV, V, IntS, BoolS, Spec, VAL, Sym, State, DictPayload,
                    S_bool, S_int, S_seq, S_val, fresh, is_prim, mkB, mkI, mkL, mkT, pyeq,
                    truthy, typeof, unB, unI, unS, Unsupported)
@@ -63,16 +64,16 @@ def box(sym: Sym, st: State):
             v = (mkT if tup else mkL)(sym.t)
             st.pc.append(typeof(v) == CLASSES.const("tuple" if tup else "list"))
         st.pc.append(unS(v) == sym.t)
-        st.pc.append(truthy(v) == (z3.Length(sym.t) > 0))
+        st.pc.append(truthy(v) == (Q.Length(sym.t) > 0))
         return v
     if k in ("dict", "set"):
         v = fresh("box" + k, V)
         st.notes.setdefault("boxed", {})[v.get_id()] = sym
         st.pc.append(typeof(v) == CLASSES.const(k))
         if k == "dict":
-            st.pc.append(truthy(v) == (z3.Length(sym.py.keys) > 0))
+            st.pc.append(truthy(v) == (Q.Length(sym.py.keys) > 0))
         else:
-            st.pc.append(truthy(v) == (z3.Length(sym.t) > 0))
+            st.pc.append(truthy(v) == (Q.Length(sym.t) > 0))
         return v
     if k == "cls":
         return CONSTS.get("class", sym.py)
@@ -90,8 +91,6 @@ def unbox(spec: Spec, t, st: State, facts: bool = True) -> Sym:
     if k == "val":
         return S_val(t)
     if k == "str":
-        if facts:
-            st.assume(typeof(t) == CLASSES.const("str"))
         return S_val(t, spec)
     if k == "prim":
         return S_val(t, spec)
@@ -173,9 +172,9 @@ def truth(sym: Sym, st: State):
     if k == "int":
         return sym.t != 0
     if k in ("seq", "set"):
-        return z3.Length(sym.t) > 0
+        return Q.Length(sym.t) > 0
     if k == "dict":
-        return z3.Length(sym.py.keys) > 0
+        return Q.Length(sym.py.keys) > 0
     if k == "val":
         if sym.t.eq(NONE):
             return z3.BoolVal(False)
@@ -196,17 +195,17 @@ def py_equal(a: Sym, b: Sym, st: State):
     if a.kind == "seq" and b.kind == "seq":
         ea, eb = elem_spec(a), elem_spec(b)
         if ea.kind in ("str", "int", "bool", "prim") or eb.kind in ("str", "int", "bool", "prim"):
-            return a.t == b.t
+            return Q.Eq(a.t, b.t)
         i = fresh("eqi", IntS)
-        return z3.And(z3.Length(a.t) == z3.Length(b.t),
-                      z3.ForAll([i], z3.Implies(z3.And(0 <= i, i < z3.Length(a.t)),
-                                                veq(a.t[i], b.t[i]))))
+        return z3.And(Q.Length(a.t) == Q.Length(b.t),
+                      z3.ForAll([i], z3.Implies(z3.And(0 <= i, i < Q.Length(a.t)),
+                                                veq(Q.At(a.t, i), Q.At(b.t, i)))))
     if a.kind == "cls" and b.kind == "cls":
         return z3.BoolVal(a.py == b.py)
     if a.kind == "seq" and b.kind == "val" or a.kind == "val" and b.kind == "seq":
         s, v = (a, b) if a.kind == "seq" else (b, a)
         if elem_spec(s).kind in ("str", "int", "bool", "prim"):
-            return unS(v.t) == s.t
+            return Q.Eq(unS(v.t), s.t)
     ta, tb = box(a, st), box(b, st)
     if is_prim(a) or is_prim(b):
         return ta == tb
@@ -225,9 +224,9 @@ def norm_index(i, n):
     return z3.If(i < 0, i + n, i)
 
 
-def seq_slice(s, lo, hi, n=None):
+def seq_slice(st, s, lo, hi, n=None):
     """CPython slice semantics for step 1; lo/hi are Int terms or None."""
-    n = z3.Length(s) if n is None else n
+    n = Q.Length(s) if n is None else n
     def clamp(x, default):
         if x is None:
             return default
@@ -235,8 +234,8 @@ def seq_slice(s, lo, hi, n=None):
         return z3.If(x < 0, 0, z3.If(x > n, n, x))
     a = clamp(lo, z3.IntVal(0))
     b = clamp(hi, n)
-    return z3.If(b > a, z3.Extract(s, a, b - a), z3.Empty(SeqV))
+    return Q.Extract(st, s, a, b - a)
 
 
-def seq_contains(s, x):
-    return z3.Contains(s, z3.Unit(x))
+def seq_contains(s, x, st=None):
+    return Q.Contains(s, x, st)
